@@ -423,6 +423,20 @@ def translate_functions(repo) -> str:
         "",
     ]
 
+    # ---- _lines / _split_lines: the file the model sees is split like the tokenizer does ----
+    ln = _find_method(nv, "BaseNodeVisitor", "_lines", fname)
+    if [ast.unparse(x) for x in ln.body] != ["return _split_lines(self.contents)"]:
+        raise TranslateError("node_visitor.py: _lines is not `return _split_lines(self.contents)`")
+    sl = [n for n in nv.body if isinstance(n, ast.FunctionDef) and n.name == "_split_lines"]
+    sl_body = [ast.unparse(x) for x in sl[0].body if not (isinstance(x, ast.Expr) and isinstance(x.value, ast.Constant))] if len(sl) == 1 else None
+    ref = ast.parse('lines = re.split(r"\\r\\n|\\r|\\n", contents)\nif lines and lines[-1] == "":\n    lines.pop()\nreturn_ = [line + "\\n" for line in lines]\n')
+    want_sl = [ast.unparse(x) for x in ref.body]
+    want_sl[2] = want_sl[2].replace("return_ = ", "return ")
+    if sl_body != want_sl:
+        raise TranslateError(f"node_visitor.py: _split_lines changed: {sl_body}")
+    out += ["(* _split_lines: a line ends at \\r\\n, \\r or \\n only *)",
+            "Definition line_terminators : list (list N) := [[13%N; 10%N]; [13%N]; [10%N]].", ""]
+
     # ---- show_errors_for_unused_ignores: shape only -------------------------
     su = _find_method(nv, "BaseNodeVisitor", "show_errors_for_unused_ignores", fname)
     body = [s_ for s_ in su.body if not (isinstance(s_, ast.Expr) and isinstance(s_.value, ast.Constant))]
@@ -551,18 +565,59 @@ def translate_apply(repo) -> str:
     if len(blk) != 1 or blk[0].orelse:
         raise TranslateError("node_visitor.py: show_error: the fixer block was not found")
     b = blk[0].body
-    if not (len(b) == 2 and isinstance(b[0], ast.If) and ast.unparse(b[0].test) == "self.add_ignores"
+    if not (len(b) == 2 and isinstance(b[0], ast.If) and ast.unparse(b[0].test) == "self.add_ignores and obey_ignore"
             and ast.unparse(b[1]) == "self._changes_for_fixer[self.filename].append(replacement)"):
-        _fail(blk[0], "show_error: unexpected fixer block", fname)
-    want = [
+        _fail(blk[0], "show_error: unexpected fixer block (expected `if self.add_ignores and obey_ignore:`)", fname)
+    # the branch: four assignments, then `if <condition>: replacement = <trailing> else: replacement = <own line>`
+    stmts = b[0].body
+    want_head = [
         "this_line = lines[lineno - 1]",
         "indentation = analysis_lib.get_indentation(this_line)",
         "if error_code is not None:\n    ignore = f'{ignore_comment}[{error_code.name}]'\nelse:\n    ignore = ignore_comment",
-        "replacement = Replacement([lineno], ['{}{}\\n'.format(' ' * indentation, ignore), this_line], str(e))",
+        "prev_line = lines[lineno - 2] if lineno >= 2 else ''",
     ]
-    got = [ast.unparse(x) for x in b[0].body]
-    if got != want:
-        raise TranslateError("node_visitor.py: show_error: the add_ignores branch changed:\n" + "\n".join(got))
+    if [ast.unparse(x) for x in stmts[:4]] != want_head or len(stmts) != 5 or not isinstance(stmts[4], ast.If):
+        raise TranslateError("node_visitor.py: show_error: the add_ignores branch changed:\n" + "\n".join(ast.unparse(x) for x in stmts))
+    choice = stmts[4]
+    REPL = {
+        "replacement = Replacement([lineno], [f'{this_line.rstrip()}  {ignore}\\n'], str(e))":
+            "mk_repl [lineno] (Some [rstrip this_line ++ [32%N; 32%N] ++ ignore])",
+        "replacement = Replacement([lineno], ['{}{}\\n'.format(' ' * indentation, ignore), this_line], str(e))":
+            "mk_repl [lineno] (Some [repeat space_char indentation ++ ignore; this_line])",
+    }
+    if not (len(choice.body) == 1 and len(choice.orelse) == 1 and ast.unparse(choice.body[0]) in REPL and ast.unparse(choice.orelse[0]) in REPL):
+        raise TranslateError("node_visitor.py: show_error: unexpected replacement construction in the add_ignores branch:\n" + ast.unparse(choice))
+    ATOMS = {
+        "this_line.rstrip().endswith('\\\\')": "ends_backslash (rstrip this_line)",
+        "prev_line.rstrip().endswith('\\\\')": "ends_backslash (rstrip prev_line)",
+        "prev_line.strip().startswith(ignore_comment)": "prefix IGNORE_COMMENT (strip prev_line)",
+        "indentation == 0": "Nat.eqb indentation 0",
+        "all((line.startswith('#') for line in lines[:lineno - 1]))": "forallb (fun line => prefix [35%N] line) (firstn (lineno - 1) lines)",
+    }
+
+    def cond(e):
+        if isinstance(e, ast.BoolOp):
+            op = " || " if isinstance(e.op, ast.Or) else " && "
+            return "(" + op.join(cond(v) for v in e.values) + ")"
+        if isinstance(e, ast.UnaryOp) and isinstance(e.op, ast.Not):
+            return f"(negb {cond(e.operand)})"
+        src = ast.unparse(e)
+        if src in ATOMS:
+            return "(" + ATOMS[src] + ")"
+        _fail(e, "show_error: unsupported condition in the add_ignores branch", fname)
+
+    add_ignore_def = [
+        "(* show_error, `if self.add_ignores and obey_ignore:` *)",
+        "Definition add_ignore_repl (lines : file) (lineno : nat) (error_code : option N) : replacement :=",
+        "  let this_line := py_index lines (Z.of_nat lineno - 1)%Z in",
+        "  let indentation := get_indentation this_line in",
+        "  let ignore := match error_code with Some c0 => tag IGNORE_COMMENT code_name c0 | None => IGNORE_COMMENT end in",
+        "  let prev_line := if 2 <=? lineno then py_index lines (Z.of_nat lineno - 2)%Z else [] in",
+        f"  if {cond(choice.test)}",
+        f"  then {REPL[ast.unparse(choice.body[0])]}",
+        f"  else {REPL[ast.unparse(choice.orelse[0])]}.",
+        "",
+    ]
     al = _module(repo, "analysis_lib.py")
     gi = [n for n in al.body if isinstance(n, ast.FunctionDef) and n.name == "get_indentation"]
     gi_body = [ast.unparse(x) for x in gi[0].body if not (isinstance(x, ast.Expr) and isinstance(x.value, ast.Constant))] if gi else None
@@ -573,14 +628,8 @@ def translate_apply(repo) -> str:
         "Definition get_indentation (line : line) : nat :=",
         "  if Nat.eqb (length (lstrip line)) 0 then 0 else length line - length (lstrip line).",
         "",
-        "(* show_error, `if self.add_ignores:` *)",
-        "Definition add_ignore_repl (lines : file) (lineno : nat) (error_code : option N) : replacement :=",
-        "  let this_line := py_index lines (Z.of_nat lineno - 1)%Z in",
-        "  let indentation := get_indentation this_line in",
-        "  let ignore := match error_code with Some c0 => tag IGNORE_COMMENT code_name c0 | None => IGNORE_COMMENT end in",
-        "  mk_repl [lineno] (Some [repeat space_char indentation ++ ignore; this_line]).",
-        "",
     ]
+    out += add_ignore_def
     return "\n".join(out)
 
 
